@@ -58,6 +58,9 @@ type Scheduler struct {
 	pause     time.Duration
 	lastError error
 	handlers  map[dag.HandlerType]*Node
+	// outcome is the status of the run as of the moment all steps had
+	// finished; nil until then.
+	outcome *Status
 }
 
 func New(cfg *Config) *Scheduler {
@@ -248,8 +251,14 @@ func (sc *Scheduler) Schedule(ctx context.Context, g *ExecutionGraph, done chan 
 	}
 	wg.Wait()
 
+	// The outcome of the run is decided now that all steps have finished: a
+	// stop request that arrives later, while the handlers run, cannot cancel
+	// anything any more and must not change what is reported.
+	outcome := sc.Status(g)
+	sc.setOutcome(outcome)
+
 	var handlers []dag.HandlerType
-	switch sc.Status(g) {
+	switch outcome {
 	case StatusSuccess:
 		handlers = append(handlers, dag.HandlerOnSuccess)
 	case StatusError:
@@ -352,6 +361,9 @@ func (sc *Scheduler) Cancel(g *ExecutionGraph) {
 
 // Status returns the status of the scheduler.
 func (sc *Scheduler) Status(g *ExecutionGraph) Status {
+	if outcome, ok := sc.getOutcome(); ok {
+		return outcome
+	}
 	if sc.isCanceled() && !sc.isSucceed(g) {
 		return StatusCancel
 	}
@@ -365,6 +377,22 @@ func (sc *Scheduler) Status(g *ExecutionGraph) Status {
 		return StatusError
 	}
 	return StatusSuccess
+}
+
+// setOutcome records the outcome of the run once all steps have finished.
+func (sc *Scheduler) setOutcome(outcome Status) {
+	sc.mu.Lock()
+	defer sc.mu.Unlock()
+	sc.outcome = &outcome
+}
+
+func (sc *Scheduler) getOutcome() (Status, bool) {
+	sc.mu.RLock()
+	defer sc.mu.RUnlock()
+	if sc.outcome == nil {
+		return StatusNone, false
+	}
+	return *sc.outcome, true
 }
 
 func (sc *Scheduler) isError() bool {
